@@ -18,6 +18,7 @@ import (
 
 	"github.com/mmcloughlin/addchain"
 	"github.com/mmcloughlin/addchain/acc"
+	"github.com/mmcloughlin/addchain/acc/ast"
 	"github.com/mmcloughlin/addchain/acc/eval"
 	"github.com/mmcloughlin/addchain/acc/ir"
 	"github.com/mmcloughlin/addchain/acc/parse"
@@ -644,6 +645,61 @@ func c05ScriptPrograms(g *Gen, n int, f func(p *ir.Program)) {
 			g.Count("script-outside-domain")
 			continue
 		}
+		// a well-formed program translated from a script must be allocatable as it stands (with the
+		// names the script gave it): a refusal here is a failure of the property, not of the input.
+		// Scripts that give an element a second name through a bare index operand (`c = [1]` where
+		// element 1 is already called `acc`) are excluded: the allocator refuses two names for one
+		// element by design ("identifier conflict", TestCanonicalizeOperandsIdentifierConflict).
+		indexAlias := false
+		for _, st := range ch.Statements {
+			if _, bare := st.Expr.(ast.Operand); bare && st.Name != "" {
+				indexAlias = true
+			}
+		}
+		if q, err2 := acc.Translate(ch); !indexAlias && err2 == nil && len(q.Instructions) > 0 && c05WellFormed(q) {
+			var aerr error
+			a := pass.Allocator{Input: "x", Output: "z", Format: "t%d"}
+			pn := safe(func() { aerr = a.Execute(q) })
+			if (pn != "" || aerr != nil) && !g.notesViolation() {
+				g.Notes = append(g.Notes, fmt.Sprintf("VIOLATION: temporary allocation refuses the well-formed program translated from the script %s: %v %s", encHex(text), aerr, pn))
+			}
+			g.Count("script-allocatable")
+		}
+		f(p)
+	}
+}
+
+// c05OpListPrograms: programs decompiled from random op lists whose additions name their operands
+// in either order and that re-read elements inside doubling runs.
+func c05OpListPrograms(g *Gen, n int, f func(p *ir.Program)) {
+	for i := 0; i < n; i++ {
+		m := 2 + g.R.Intn(9)
+		prog := addchain.Program{}
+		for len(prog) < m {
+			L := len(prog)
+			a, b := g.R.Intn(L+1), g.R.Intn(L+1)
+			switch g.R.Intn(4) {
+			case 0:
+				b = a // doubling (runs of these become shifts)
+			case 1:
+				a = L // the newest element
+			}
+			prog = append(prog, addchain.Op{I: a, J: b})
+		}
+		var p *ir.Program
+		var err error
+		if pn := safe(func() { p, err = acc.Decompile(prog) }); pn != "" || err != nil {
+			if !g.notesViolation() {
+				g.Notes = append(g.Notes, fmt.Sprintf("VIOLATION: Decompile fails on the valid op list %v: %v %s", prog, err, pn))
+			}
+			continue
+		}
+		if !c05WellFormed(p) {
+			if !g.notesViolation() {
+				g.Notes = append(g.Notes, fmt.Sprintf("VIOLATION: the program decompiled from the valid op list %v is not well-formed (an instruction reads a value no instruction produces): %s", prog, c05DumpIR(p)))
+			}
+			continue
+		}
 		f(p)
 	}
 }
@@ -744,6 +800,11 @@ func genC05(g *Gen, emit c05Emitter) {
 			emit(g, c05Shared(p), false)
 		}
 		g.Count("search")
+	})
+	// decompiled random op lists (operands in either order)
+	c05OpListPrograms(g, g.pick(1500, 15000), func(p *ir.Program) {
+		emit(g, p, false)
+		g.Count("oplist")
 	})
 	// translated random scripts
 	c05ScriptPrograms(g, g.pick(1500, 15000), func(p *ir.Program) {
